@@ -310,3 +310,307 @@ Proof.
   destruct (calc_line _ _ _ _ _); destruct (s_line _ _ _ _ _ _); try contradiction;
     destruct (calc_lines _ _ _ _ _); destruct (s_lines _ _ _ _ _ _); try contradiction; cbn [orel] in *; auto.
 Qed.
+
+(* ------------------------------------------------------------------------------------------ *)
+(* presentation of lines                                                                       *)
+(* ------------------------------------------------------------------------------------------ *)
+Lemma den_rescale_down a f e : den a f -> den (rescale_down a e) (lower rnd e f).
+Proof.
+  intros H. unfold rescale_down, lower. destruct H as [H1 H2]. rewrite H2.
+  destruct (Nat.ltb e (fp f)); [apply den_rescale; split; assumption|split; assumption].
+Qed.
+
+Definition so_den (s : sub_out) (f : isub) : Prop := den (so_sum s) (is_sum f) /\ den (so_total s) (is_total f).
+Definition lout_den (l : line_out) (f : iline) : Prop :=
+  den (lo_price l) (il_price f) /\ den (lo_sum l) (il_sum f) /\ den (lo_total l) (il_total f) /\
+  Forall2 den (lo_discounts l) (il_ds f) /\ Forall2 den (lo_charges l) (il_cs f) /\
+  Forall2 so_den (lo_subs l) (il_subs f).
+
+Lemma Forall2_map {A B C D} (P : A -> B -> Prop) (Q : C -> D -> Prop) (f : A -> C) (g : B -> D) xs ys :
+  (forall x y, P x y -> Q (f x) (g y)) -> Forall2 P xs ys -> Forall2 Q (map f xs) (map g ys).
+Proof. intros H F. induction F; cbn [map]; constructor; auto. Qed.
+
+Lemma present_line_refines lc f : line_den lc f -> lout_den (present_line lc) (s_present_line rnd f).
+Proof.
+  intros (P & S & T & D & C & B). unfold present_line, s_present_line, lout_den.
+  cbn [lo_price lo_sum lo_total lo_discounts lo_charges lo_subs il_price il_sum il_total il_ds il_cs il_subs].
+  destruct P as [P1 P2]. rewrite P2.
+  split; [split; assumption|]. split; [apply den_rescale_down, S|]. split; [apply den_rescale_down, T|].
+  split; [|split].
+  - eapply Forall2_map; [|exact D]. intros x y H. apply den_rescale_down, H.
+  - eapply Forall2_map; [|exact C]. intros x y H. apply den_rescale_down, H.
+  - eapply Forall2_map; [|exact B]. intros x y (_ & Hs & Ht & _). split; cbn [so_sum so_total is_sum is_total];
+      apply den_rescale_down; assumption.
+Qed.
+
+(* ------------------------------------------------------------------------------------------ *)
+(* sums of figures, document discounts and charges                                             *)
+(* ------------------------------------------------------------------------------------------ *)
+Lemma maxl_shift l : forall a b, maxl l (Nat.max a b) = Nat.max b (maxl l a).
+Proof. induction l as [|x r IH]; intros a b; cbn [maxl fold_right]; [lia|]. fold (maxl r (Nat.max a b)). fold (maxl r a). rewrite IH. lia. Qed.
+
+Lemma fold_acc_den xs fxs : Forall2 den xs fxs -> forall s,
+  toQ (fold_left acc xs s) == toQ s + sumQl (map fq fxs) /\ exp (fold_left acc xs s) = maxl (map fp fxs) (exp s).
+Proof.
+  intros F. induction F as [|x f r fr [H1 H2] _ IH]; intros s; cbn [fold_left map sumQl maxl fold_right].
+  - split; [ring|reflexivity].
+  - destruct (IH (acc s x)) as [E1 E2]. split.
+    + rewrite E1, acc_toQ, H1. fold (sumQl (map fq fr)). ring.
+    + rewrite E2, acc_exp, H2. fold (maxl (map fp fr) (exp s)). apply maxl_shift.
+Qed.
+
+Lemma sum_figs_refines c xs fxs : Forall2 den xs fxs ->
+  den (fold_left acc xs (zero_of c)) (s_sum_figs c fxs).
+Proof.
+  intros F. destruct (fold_acc_den xs fxs F (zero_of c)) as [E1 E2].
+  split; cbn [fq fp s_sum_figs]; [rewrite E1, toQ_zero; ring|exact E2].
+Qed.
+
+Lemma sum_opt_refines c xs fxs : Forall2 den xs fxs -> orel den (sum_opt c xs) (s_opt_sum c fxs).
+Proof.
+  intros F. unfold sum_opt, s_opt_sum. destruct F as [|x f r fr H Hr]; [exact I|].
+  cbn [orel]. apply sum_figs_refines. constructor; assumption.
+Qed.
+
+Lemma ddc_amount_refines cr c sum fs d : den sum fs -> den (ddc_amount cr c sum d) (s_ddc rnd cr c fs d).
+Proof.
+  intros Hs. unfold ddc_amount, s_ddc. apply den_apply_rr.
+  pose proof (opt_nonzero_spec (dd_pct d)) as N.
+  destruct (opt_nonzero (dd_pct d)) as [p|]; destruct (nonzero_pct (dd_pct d)) as [x|]; try contradiction.
+  - unfold pct_of. apply den_mul; [|rewrite N; reflexivity].
+    destruct (dd_base d) as [b|]; [apply den_base2|exact Hs].
+  - apply den_of_amount.
+Qed.
+
+Definition pair_den (x : ddc * amount) (y : ddc * fig) : Prop := fst x = fst y /\ den (snd x) (snd y).
+
+Lemma ddcs_refine cr c sum fs ds : den sum fs ->
+  Forall2 pair_den (map (fun x => (x, ddc_amount cr c sum x)) ds) (map (fun x => (x, s_ddc rnd cr c fs x)) ds).
+Proof.
+  intros Hs. induction ds as [|d r IH]; cbn [map]; constructor; [|exact IH].
+  split; [reflexivity|]. cbn [snd]. apply ddc_amount_refines, Hs.
+Qed.
+
+Lemma pair_den_snd xs ys : Forall2 pair_den xs ys -> Forall2 den (map snd xs) (map snd ys).
+Proof. intros F. eapply Forall2_map; [|exact F]. intros x y [_ H]. exact H. Qed.
+
+Lemma present_ddc_refines c xs ys : Forall2 pair_den xs ys ->
+  Forall2 den (map (fun p => present_ddc c (fst p) (snd p)) xs) (map (fun p => s_present_ddc rnd c (fst p) (snd p)) ys).
+Proof.
+  intros F. eapply Forall2_map; [|exact F]. intros x y [E H]. unfold present_ddc, s_present_ddc.
+  rewrite E. apply den_rescale_down, H.
+Qed.
+
+(* ------------------------------------------------------------------------------------------ *)
+(* tax rows                                                                                    *)
+(* ------------------------------------------------------------------------------------------ *)
+Definition tl_den (tl : tax_line) (r : irow) : Prop := den (tl_total tl) (ir_total r) /\ tl_taxes tl = ir_taxes r.
+
+Lemma Forall2_app_intro {A B} (P : A -> B -> Prop) a1 b1 a2 b2 :
+  Forall2 P a1 b1 -> Forall2 P a2 b2 -> Forall2 P (a1 ++ a2) (b1 ++ b2).
+Proof. intros F1 F2. induction F1; cbn [app]; [exact F2|constructor; assumption]. Qed.
+
+Lemma line_rows_refine lcs ils : Forall2 line_den lcs ils -> forall ls,
+  Forall2 tl_den (map (fun p => mkTL (lc_total (fst p)) (ln_taxes (snd p))) (combine lcs ls))
+                 (map (fun p => mkIR (il_total (fst p)) (ln_taxes (snd p))) (combine ils ls)).
+Proof.
+  intros F. induction F as [|lc f r fr H _ IH]; intros ls; [constructor|].
+  destruct ls as [|l ls]; cbn [combine map]; constructor; [|apply IH].
+  split; [|reflexivity]. cbn [tl_total ir_total fst]. apply H.
+Qed.
+
+Lemma tax_lines_refine lcs ils ls dd fdd cc fcc :
+  Forall2 line_den lcs ils -> Forall2 pair_den dd fdd -> Forall2 pair_den cc fcc ->
+  Forall2 tl_den (tax_lines lcs ls dd cc) (s_rows ils ls fdd fcc).
+Proof.
+  intros FL FD FC. unfold tax_lines, s_rows. repeat apply Forall2_app_intro.
+  - apply line_rows_refine, FL.
+  - eapply Forall2_map; [|exact FD]. intros x y [E H]. split; cbn [tl_total tl_taxes ir_total ir_taxes];
+      [apply den_negate, H|rewrite E; reflexivity].
+  - eapply Forall2_map; [|exact FC]. intros x y [E H]. split; cbn [tl_total tl_taxes ir_total ir_taxes];
+      [exact H|rewrite E; reflexivity].
+Qed.
+
+Lemma prepare_refines c tl r : tl_den tl r -> tl_den (prepare_tl c tl) (s_prepare c r).
+Proof.
+  intros G. pose proof G as [H E]. unfold prepare_tl, s_prepare, tax_precision_extra. rewrite <- E.
+  destruct (tl_taxes tl); [exact G|].
+  split; cbn [tl_total tl_taxes ir_total ir_taxes]; [apply den_rescale_up, H|reflexivity].
+Qed.
+
+Lemma remove_refines pit tl r : tl_den tl r -> orel tl_den (remove_included pit tl) (s_remove rnd pit r).
+Proof.
+  intros G. pose proof G as [H E]. unfold remove_included, s_remove. rewrite <- E.
+  destruct pit; [exact G|].
+  destruct (get_combo _ _) as [cb|]; [|exact G].
+  destruct (cb_retained cb); [exact I|].
+  destruct (cb_pct cb) as [p|]; [|exact G].
+  cbn [orel]. split; cbn [tl_total tl_taxes ir_total ir_taxes]; [|reflexivity].
+  destruct H as [H1 H2]. split; cbn [fq fp]; [|unfold remove; rewrite div_exp; exact H2].
+  unfold remove. rewrite toQ_div, H2. apply rnd_proper; [reflexivity|].
+  rewrite factor_toQ, H1. reflexivity.
+Qed.
+
+Lemma remove_all_refines pit tls rs : Forall2 tl_den tls rs ->
+  orel (Forall2 tl_den) (remove_included_all pit tls) (s_remove_all rnd pit rs).
+Proof.
+  intros F. induction F as [|tl r tls' rs' H _ IH]; cbn [remove_included_all s_remove_all orel]; [constructor|].
+  pose proof (remove_refines pit tl r H) as K.
+  destruct (remove_included pit tl); destruct (s_remove rnd pit r); try contradiction;
+    destruct (remove_included_all pit tls'); destruct (s_remove_all rnd pit rs'); try contradiction; cbn [orel] in *; auto.
+Qed.
+
+(* ------------------------------------------------------------------------------------------ *)
+(* tax groups and categories: the bases                                                        *)
+(* ------------------------------------------------------------------------------------------ *)
+Definition grel (cr : bool) (c : nat) (rt : rate_total) (g : igroup) : Prop :=
+  rt_country rt = cb_country (ig_cb g) /\ rt_ext rt = cb_ext (ig_cb g) /\
+  rt_pct rt = cb_pct (ig_cb g) /\ rt_sur rt = cb_sur (ig_cb g) /\
+  den (rt_base rt) (ig_base g) /\ (cr = true -> fp (ig_base g) = c).
+
+Definition crel (cr : bool) (c : nat) (ct : cat_total) (ic : icat) : Prop :=
+  ct_code ct = ic_code ic /\ ct_retained ct = ic_retained ic /\ Forall2 (grel cr c) (ct_rates ct) (ic_groups ic).
+
+Lemma grel_matches cr c rt g cb : grel cr c rt g -> rt_matches rt cb = ig_matches g cb.
+Proof.
+  intros (A & B & C & D & _). unfold ig_matches, rt_matches, new_rt.
+  cbn [rt_ext rt_country rt_pct rt_sur]. rewrite A, B, C, D. reflexivity.
+Qed.
+
+Lemma add_base_refines cr c tot ftot rt g : den tot ftot -> grel cr c rt g ->
+  grel cr c (rt_add_base cr tot rt) (mkIG (ig_cb g) (s_add_base rnd cr c ftot (ig_base g))).
+Proof.
+  intros [T1 T2] (A & B & C & D & [E1 E2] & I). unfold grel, rt_add_base.
+  cbn [rt_country rt_ext rt_pct rt_sur rt_base ig_cb ig_base]. repeat (split; [assumption|]).
+  unfold s_add_base, acc_rr, match_rr. destruct cr.
+  - specialize (I eq_refl). split; [|reflexivity]. split; cbn [fq fp]; [|rewrite add_exp; congruence].
+    rewrite toQ_add, E1, E2, I, T1. reflexivity.
+  - split; [|discriminate]. fold (acc (rt_base rt) tot). split; cbn [fq fp].
+    + rewrite acc_toQ, E1, T1. reflexivity.
+    + rewrite acc_exp, E2, T2. reflexivity.
+Qed.
+
+Lemma grel_new cr c cb : grel cr c (new_rt c cb) (mkIG cb (mkF 0 c)).
+Proof.
+  unfold grel, new_rt. cbn [rt_country rt_ext rt_pct rt_sur rt_base ig_cb ig_base fp].
+  repeat (split; [reflexivity|]). split; [|reflexivity]. split; [apply toQ_zero|reflexivity].
+Qed.
+
+Lemma add_to_rates_refines cr c tot ftot cb rts gs : den tot ftot -> Forall2 (grel cr c) rts gs ->
+  Forall2 (grel cr c) (add_to_rates cr c tot cb rts) (s_add_to_groups rnd cr c ftot cb gs).
+Proof.
+  intros T F. induction F as [|rt g r gr H Hr IH]; cbn [add_to_rates s_add_to_groups].
+  - constructor; [|constructor].
+    apply (add_base_refines cr c tot ftot (new_rt c cb) (mkIG cb (mkF 0 c)) T (grel_new cr c cb)).
+  - rewrite (grel_matches cr c rt g cb H). destruct (ig_matches g cb).
+    + constructor; [apply add_base_refines; assumption|exact Hr].
+    + constructor; [exact H|exact IH].
+Qed.
+
+Lemma add_to_cats_refines cr c tot ftot cb cts ics : den tot ftot -> Forall2 (crel cr c) cts ics ->
+  Forall2 (crel cr c) (add_to_cats cr c tot cb cts) (s_add_to_cats rnd cr c ftot cb ics).
+Proof.
+  intros T F. induction F as [|ct ic r ir H Hr IH]; cbn [add_to_cats s_add_to_cats].
+  - constructor; [|constructor]. unfold crel, ct_with_rates, new_ct. cbn [ct_code ct_retained ct_rates ic_code ic_retained ic_groups].
+    repeat split. apply add_to_rates_refines; [exact T|constructor].
+  - destruct H as (A & B & G). rewrite A. destruct (eqb_bytes (ic_code ic) (cb_cat cb)).
+    + constructor; [|exact Hr]. unfold crel, ct_with_rates. cbn [ct_code ct_retained ct_rates ic_code ic_retained ic_groups].
+      repeat split; try assumption. apply add_to_rates_refines; assumption.
+    + constructor; [repeat split; assumption|exact IH].
+Qed.
+
+Lemma add_tl_refines cr c cts ics tl r : tl_den tl r -> Forall2 (crel cr c) cts ics ->
+  Forall2 (crel cr c) (add_tl cr c cts tl) (s_add_row rnd cr c ics r).
+Proof.
+  intros [H E] F. unfold add_tl, s_add_row. rewrite <- E. clear E.
+  revert cts ics F. induction (tl_taxes tl) as [|cb cbs IH]; intros cts ics F; cbn [fold_left]; [exact F|].
+  apply IH. apply add_to_cats_refines; assumption.
+Qed.
+
+Lemma base_totals_refines cr c tls rs : Forall2 tl_den tls rs ->
+  Forall2 (crel cr c) (base_totals cr c tls) (s_cats rnd cr c rs).
+Proof.
+  intros F. unfold base_totals, s_cats.
+  assert (G : forall cts ics, Forall2 (crel cr c) cts ics ->
+          Forall2 (crel cr c) (fold_left (add_tl cr c) tls cts) (fold_left (s_add_row rnd cr c) rs ics)).
+  { induction F as [|tl r tls' rs' H _ IH]; intros cts ics K; cbn [fold_left]; [exact K|].
+    apply IH. apply add_tl_refines; assumption. }
+  apply G. constructor.
+Qed.
+
+(* ------------------------------------------------------------------------------------------ *)
+(* group amounts, category amounts, the tax sum (through the characterisations of TaxProofs)   *)
+(* ------------------------------------------------------------------------------------------ *)
+Lemma rnd_zero e : rnd e 0 == 0.
+Proof. unfold rnd, roundQ. cbn [Qnum Qden]. rewrite Z.mul_0_l. unfold rha. cbn [Z.leb Z.compare Z.mul Z.add].
+  rewrite Z.div_small by lia. reflexivity. Qed.
+
+Lemma contrib_toQ cr c a : toQ (contrib cr c a) = contribQ rnd cr c (toQ a).
+Proof. unfold contrib, contribQ. destruct cr; [apply toQ_rescale|reflexivity]. Qed.
+
+Lemma contribQ_zero cr c : contribQ rnd cr c 0 == 0.
+Proof. unfold contribQ. destruct cr; [apply rnd_zero|reflexivity]. Qed.
+
+#[global] Instance contribQ_proper cr c : Proper (Qeq ==> Qeq) (contribQ rnd cr c).
+Proof. intros q q' H. unfold contribQ. destruct cr; [rewrite H; reflexivity|exact H]. Qed.
+
+Lemma taxed_amount_refines cr c rt g : grel cr c rt g ->
+  taxed_amount cr c (rt_calc c rt) == contribQ rnd cr c (g_amount rnd g).
+Proof.
+  intros (_ & _ & C & _ & [E1 E2] & _). unfold taxed_amount, g_amount. rewrite rt_calc_pct, C.
+  unfold rt_calc. rewrite C. destruct (cb_pct (ig_cb g)) as [p|]; cbn [rt_amount].
+  - rewrite contrib_toQ. unfold pct_of. rewrite toQ_mul, E2, E1. reflexivity.
+  - symmetry. apply contribQ_zero.
+Qed.
+
+Lemma taxed_surcharge_refines cr c rt g : grel cr c rt g ->
+  taxed_surcharge cr c (rt_calc c rt) == contribQ rnd cr c (g_surcharge rnd g).
+Proof.
+  intros (_ & _ & C & D & [E1 E2] & _). unfold taxed_surcharge, g_surcharge. rewrite rt_calc_pct, rt_calc_sur, C, D.
+  unfold rt_calc. rewrite C, D. destruct (cb_pct (ig_cb g)) as [p|]; [|symmetry; apply contribQ_zero].
+  destruct (cb_sur (ig_cb g)) as [s|]; cbn [rt_suramount]; [|symmetry; apply contribQ_zero].
+  rewrite contrib_toQ. unfold pct_of. rewrite toQ_mul, E2, E1. reflexivity.
+Qed.
+
+Lemma cat_amounts_refine cr c ct ic : crel cr c ct ic ->
+  toQ (ct_amount (ct_calc cr c ct)) == cat_amount rnd cr c ic /\
+  optQ (ct_surcharge (ct_calc cr c ct)) == cat_surcharge rnd cr c ic.
+Proof.
+  intros (_ & _ & F).
+  destruct (category_amount_is_sum_of_groups cr c ct) as (A & S & _). cbv zeta in A, S.
+  rewrite A, S. unfold ct_calc. cbn [ct_rates]. unfold cat_amount, cat_surcharge, sumQ_amounts, sumQ_surcharges.
+  induction F as [|rt g r gr H _ IH]; cbn [map fold_right sumQl]; [split; reflexivity|].
+  destruct IH as [I1 I2]. split.
+  - rewrite (taxed_amount_refines cr c rt g H). apply Qplus_comp; [reflexivity|exact I1].
+  - rewrite (taxed_surcharge_refines cr c rt g H). apply Qplus_comp; [reflexivity|exact I2].
+Qed.
+
+Lemma signed_refines cr c ct ic : crel cr c ct ic -> signedQ (ct_calc cr c ct) == cat_signed rnd cr c ic.
+Proof.
+  intros H. destruct (cat_amounts_refine cr c ct ic H) as [A S]. destruct H as (_ & B & _).
+  unfold signedQ, cat_signed.
+  replace (ct_retained (ct_calc cr c ct)) with (ic_retained ic) by (rewrite <- B; reflexivity).
+  destruct (ic_retained ic); rewrite A, S; reflexivity.
+Qed.
+
+Lemma tax_sum_refines cr c cts ics : Forall2 (crel cr c) cts ics ->
+  toQ (fold_left (sum_step cr) (map (ct_calc cr c) cts) (zero_of c)) == s_tax rnd cr c ics.
+Proof.
+  intros F. rewrite tax_sum_signed. unfold sumQ_signed, s_tax.
+  induction F as [|ct ic r ir H _ IH]; cbn [map fold_right sumQl]; [reflexivity|].
+  rewrite (signed_refines cr c ct ic H). apply Qplus_comp; [reflexivity|exact IH].
+Qed.
+
+Lemma find_cat_refines cr c code cts ics : Forall2 (crel cr c) cts ics ->
+  match find_cat code (map (ct_round c) (map (ct_calc cr c) cts)), s_find_cat code ics with
+  | Some ct, Some ic => toQ (precise_or (ct_precise ct) (ct_amount ct)) == cat_amount rnd cr c ic
+  | None, None => True
+  | _, _ => False
+  end.
+Proof.
+  intros F. induction F as [|ct ic r ir H _ IH]; cbn [map find_cat s_find_cat]; [exact I|].
+  replace (ct_code (ct_round c (ct_calc cr c ct))) with (ic_code ic) by (destruct H as (A & _); rewrite <- A; reflexivity).
+  destruct (eqb_bytes (ic_code ic) code); [|exact IH].
+  unfold ct_round at 1 2. cbn [ct_precise ct_amount]. rewrite precise_or_toQ.
+  apply (cat_amounts_refine cr c ct ic H).
+Qed.
